@@ -369,6 +369,25 @@ func vrStyleValue(t *rapid.T, key, val string) vrValue {
 	return v
 }
 
+// vrCaseRegexes: regex values that mean something else (or stop compiling) when the
+// pattern text is lower-cased: negated escape classes \D \W \S, \B, \A, \P{..}/\PL,
+// \Q..\E, upper-case ranges/literals/hex escapes (never match a lower-cased name).
+// n is a QuoteMeta'd vocabulary name.
+func vrCaseRegexes(n string) []string {
+	return []string{
+		`^\D+$`, `^\D+\.` + n + `$`, `\D\.` + n + `$`, `^\D`, `\D$`,
+		`^\W`, `\W\W`, `^[a-z]+\W[a-z0-9]+$`, `^\w+\W` + n + `$`,
+		`^\S+$`, `^\S+\.` + n + `$`, `\S` + n + `$`,
+		`\B` + n + `$`, `^a\B`, `\Bm$`, `\.\Ba`,
+		`\A` + n + `$`, `\Aa`, `\A[a-z0-9]+\.` + n + `\z`,
+		`^\PL`, `^\P{L}+\.`, `\P{Ll}$`, `^\pL+$`, `^\p{Ll}+\.` + n + `$`, `\PN$`,
+		`^\Q` + strings.ReplaceAll(n, `\`, ``) + `\E$`,
+		`^[A-Z]`, `[A-Z]`, `^[A-Z0-9]+\.`, `^[^A-Z]+$`, `^[^A-Z]+\.` + n + `$`, `^A`, `COM$`, `^(A|b)\.`,
+		`^\x41`, `^\x61`, `\x2E\x63om$`, `^\x{41}`, `^[\x41-\x5A]`, `^[^\x41-\x5A]+$`,
+		`(?i)^A`, `(?i)` + strings.ToUpper(n) + `$`, `(?P<Label>[a-z0-9]+)\.` + n + `$`, `(?U)^\D+\.`,
+	}
+}
+
 func vrGenDomainValue(t *rapid.T, voc vrVocab) vrValue {
 	name := rapid.SampledFrom(voc.Names).Draw(t, "dv_name")
 	switch rapid.IntRange(0, 9).Draw(t, "dv_kind") {
@@ -387,6 +406,11 @@ func vrGenDomainValue(t *rapid.T, voc vrVocab) vrValue {
 		return vrStyleValue(t, rapid.SampledFrom([]string{"keyword", "contains"}).Draw(t, "dv_kkey"), name[i:j])
 	default:
 		n := regexp.QuoteMeta(name)
+		if rapid.IntRange(0, 2).Draw(t, "dv_rxcase") == 0 {
+			// patterns whose meaning depends on the case of the pattern text itself: the
+			// matcher lower-cases the *name*, the pattern must be used exactly as written
+			return vrStyleValue(t, "regex", rapid.SampledFrom(vrCaseRegexes(n)).Draw(t, "dv_rxc"))
+		}
 		rx := rapid.SampledFrom([]string{"^" + n + "$", n + "$", "^" + n, `(^|\.)` + n + "$", `^[a-z0-9]+\.` + n + "$", `^a+\.com$`, `\.net$`, `^[0-9]`, `x-1`, `^(a|b)\.`, `_`, `\.co(m)?$`}).Draw(t, "dv_rx")
 		return vrStyleValue(t, "regex", rx)
 	}
